@@ -831,6 +831,12 @@ orc_program_append_2 (OrcProgram *program, const char *name, unsigned int flags,
   int args[4];
   int i;
 
+  if (program->n_insns >= ORC_N_INSNS) {
+    ORC_ERROR ("too many instructions (at most %d): %s", ORC_N_INSNS, name);
+    orc_program_set_error (program, "too many instructions");
+    return;
+  }
+
   insn = program->insns + program->n_insns;
 
   insn->opcode = orc_opcode_find_by_name (name);
@@ -985,6 +991,12 @@ orc_program_append_str_n (OrcProgram *program, const char *name,
   int args[6];
   int i;
   int expected_args = 0;
+
+  if (program->n_insns >= ORC_N_INSNS) {
+    ORC_ERROR ("too many instructions (at most %d): %s", ORC_N_INSNS, name);
+    orc_program_set_error (program, "too many instructions");
+    return -1;
+  }
 
   insn = program->insns + program->n_insns;
 
